@@ -3,7 +3,7 @@
     semantics on every well-formed descriptor and in-domain value (prefix law);
     hence decode (encode v) = v with the same constructor selected. *)
 From Coq Require Import List NArith ZArith Arith Lia Bool.
-From Tongo Require Import Lib.Bits Lib.Res Model.TlbCore Proofs.BitStringW Proofs.BitStringR Proofs.BitStringR2.
+From Tongo Require Import Lib.Bits Lib.Res Proofs.BitStringW Proofs.BitStringR Proofs.BitStringR2 Model.TlbCore.
 Import ListNotations.
 
 Ltac splits := repeat match goal with |- _ /\ _ => split end.
@@ -73,19 +73,19 @@ Proof.
     rewrite <- (app_nil_r []). eapply extends_trans; eapply extends_bits; eassumption.
   - destruct v; try discriminate. eauto using extends_bits.
   - destruct v; try discriminate. eauto using extends_bits.
-  - (* TMaybe *) destruct v as [| | | | |[x|]| | | | |]; try discriminate.
+  - (* TMaybe *) destruct v as [| | | | | |[x|]| | | | |]; try discriminate.
     + bind_ok He. destruct (IH _ _ _ _ He) as (bs & rs & -> & Hx).
       do 2 eexists. split; [reflexivity|].
       change (true :: bs) with ([true] ++ bs). rewrite <- (app_nil_l rs).
       eapply extends_trans; [eapply extends_bits; eassumption|exact Hx].
     + eauto using extends_bits.
-  - (* TEither *) destruct v as [| | | | | |[|] x| | | |]; try discriminate; bind_ok He;
+  - (* TEither *) destruct v as [| | | | | | |[|] x| | | |]; try discriminate; bind_ok He;
       destruct (IH _ _ _ _ He) as (bs & rs & -> & Hx);
       do 2 eexists; (split; [reflexivity|]);
       [change (true :: bs) with ([true] ++ bs)|change (false :: bs) with ([false] ++ bs)];
       rewrite <- (app_nil_l rs);
       (eapply extends_trans; [eapply extends_bits; eassumption|exact Hx]).
-  - (* TEitherRef *) destruct v as [| | | | | |[|] x| | | |]; try discriminate.
+  - (* TEitherRef *) destruct v as [| | | | | | |[|] x| | | |]; try discriminate.
     + bind_ok He. bind_ok He.
       destruct (IH _ _ _ _ E0) as (bs & rs & -> & Hx).
       do 2 eexists. split; [reflexivity|].
@@ -100,7 +100,7 @@ Proof.
     destruct (IH _ _ _ _ E) as (bs & rs & -> & Hx).
     do 2 eexists. split; [reflexivity|].
     rewrite <- (extends_empty _ _ _ Hx). eapply extends_ref; eassumption.
-  - (* TMaybeRef *) destruct v as [| | | | |[x|]| | | | |]; try discriminate.
+  - (* TMaybeRef *) destruct v as [| | | | | |[x|]| | | | |]; try discriminate.
     + bind_ok He. bind_ok He.
       destruct (IH _ _ _ _ E0) as (bs & rs & -> & Hx).
       do 2 eexists. split; [reflexivity|].
@@ -336,7 +336,7 @@ Proof.
     rewrite take_bits_app' by apply bits_of_length. cbn [bind fst snd].
     apply N.ltb_lt in Hwf. rewrite N_of_bits_bits_of_small by exact Hwf.
     rewrite N.eqb_refl. reflexivity.
-  - (* TMaybe *) destruct v as [| | | | |[x|]| | | | |]; try discriminate.
+  - (* TMaybe *) destruct v as [| | | | | |[x|]| | | | |]; try discriminate.
     + destruct (spec env f t x) as [[bs' rs']|] eqn:Es; [|discriminate]. injection Hsp as <- <-.
       change ((true :: bs') ++ tb) with ([true] ++ (bs' ++ tb)).
       rewrite (take_bits_app' 1 [true]) by reflexivity. cbn [bind fst snd nth].
@@ -347,7 +347,7 @@ Proof.
     { destruct Htl as [Htl|Htl]; [left|right; exact Htl]. apply orb_false_iff in Htl. tauto. }
     assert (Ht2 : tail_ok (tail env f t2) tb tr).
     { destruct Htl as [Htl|Htl]; [left|right; exact Htl]. apply orb_false_iff in Htl. tauto. }
-    destruct v as [| | | | | |[|] x| | | |]; try discriminate.
+    destruct v as [| | | | | | |[|] x| | | |]; try discriminate.
     + destruct (spec env f t2 x) as [[bs' rs']|] eqn:Es; [|discriminate]. injection Hsp as <- <-.
       change ((true :: bs') ++ tb) with ([true] ++ (bs' ++ tb)).
       rewrite (take_bits_app' 1 [true]) by reflexivity. cbn [bind fst snd nth].
@@ -356,7 +356,7 @@ Proof.
       change ((false :: bs') ++ tb) with ([false] ++ (bs' ++ tb)).
       rewrite (take_bits_app' 1 [false]) by reflexivity. cbn [bind fst snd nth].
       rewrite (IH _ _ _ _ _ _ Hw1 Hty Es Ht1). reflexivity.
-  - (* TEitherRef *) destruct v as [| | | | | |[|] x| | | |]; try discriminate.
+  - (* TEitherRef *) destruct v as [| | | | | | |[|] x| | | |]; try discriminate.
     + destruct (spec env f t x) as [[bs' rs']|] eqn:Es; [|discriminate]. injection Hsp as <- <-.
       rewrite (take_bits_app' 1 [true]) by reflexivity. cbn [bind fst snd nth app take_ref sr sb].
       unfold open. cbn [ct_bits ct_refs].
@@ -370,7 +370,7 @@ Proof.
     cbn [app take_ref sr sb bind fst snd]. unfold open. cbn [ct_bits ct_refs].
     rewrite <- (app_nil_r bs'), <- (app_nil_r rs').
     rewrite (IH _ _ _ _ [] [] Hwf Hty Es); [reflexivity|right; auto].
-  - (* TMaybeRef *) destruct v as [| | | | |[x|]| | | | |]; try discriminate.
+  - (* TMaybeRef *) destruct v as [| | | | | |[x|]| | | | |]; try discriminate.
     + destruct (spec env f t x) as [[bs' rs']|] eqn:Es; [|discriminate]. injection Hsp as <- <-.
       rewrite (take_bits_app' 1 [true]) by reflexivity. cbn [bind fst snd nth app take_ref sr sb].
       unfold open. cbn [ct_bits ct_refs].
